@@ -150,6 +150,15 @@ def check(run, ctx):
                   decides="`lines of code` means the same in Python, TypeScript and Rust")
     for rec in shared.loc_counters(ctx):
         (run.ok(T8, rec["func"], rec["detail"]) if rec["ok"] else run.finding(T8, rec["func"], "loc-definition", f"{rec['func']}: {rec['detail']} (the sibling analyzers count code lines only)", rec["loc"]))
+    T10 = run.rule("T10", "the line list a class's LOC is sliced from uses the parser's line model (split on '\\n'), so the parser's start/end lines select the class's own lines", floor=1,
+                   decides="the true line count is reported also when the file contains form feeds or U+2028 (which str.splitlines() treats as line breaks and the parsers do not)")
+    for rec in shared.line_model_sites(ctx):
+        if ".srp." not in rec["func"]:
+            continue
+        if rec["indexed_by_line"]:
+            run.finding(T10, rec["func"], "splitlines-sliced-by-line", f"{rec['func']}: {rec['expr']} is sliced by the parser's line numbers ({rec['use']}): every form-feed/NEL/U+2028 above the class end shifts the slice, so lines before the class are counted and its last lines are not", rec["loc"])
+        else:
+            run.ok(T10, rec["func"], f"{rec['expr']}: {rec['use']}", nontrivial=rec["use"] != "no positional use")
     T9 = run.rule("T9", "every class is found: the Python class finder walks the whole tree (classes nested in functions, methods, if/try blocks included)", floor=1)
     for rec in shared.whole_tree_finders(ctx):
         if ".srp." not in rec["func"]:
